@@ -360,17 +360,16 @@ class AgnosticOpticalElement(OpticalElement):
             # Remove last added item
             key, value = self._instance_data_cache.popitem(False)
 
-            # Remove all copies of that item as well
-            old_cache_keys = self._get_cache_keys(value.input_grid, value.output_grid, value.wavelength)
-            for i in range(len(old_cache_keys) - 1):
-                self._instance_data_cache.popitem(False)
+            # Remove all other keys referring to that item as well
+            for key in [k for k, v in self._instance_data_cache.items() if v is value]:
+                del self._instance_data_cache[key]
 
             # Update number of instance data items
             self._num_in_cache -= 1
 
         # Calculate cache keys
         if cache_keys is None:
-            cache_keys = self._get_cache_keys(instance_data.input_grid, instance_data.output_grid, instance_data.wavelength)
+            cache_keys = self._get_cache_keys(instance_data.input_grid, instance_data.output_grid, instance_data.wavelength)[:1]
 
         # Add instance data under each of these keys
         for cache_key in cache_keys:
@@ -604,7 +603,8 @@ class AgnosticOpticalElement(OpticalElement):
         wavelength : scalar or None
             The wavelength.
         '''
-        cache_keys = self._get_cache_keys(input_grid, output_grid, wavelength)
+        # Only the key of the request itself identifies an instance; the partial keys do not.
+        request_keys = cache_keys = self._get_cache_keys(input_grid, output_grid, wavelength)[:1]
 
         for cache_key in cache_keys:
             if cache_key in self._instance_data_cache:
@@ -618,12 +618,14 @@ class AgnosticOpticalElement(OpticalElement):
             if output_grid is None:
                 output_grid = self.get_output_grid(input_grid, wavelength)
 
-            # Recalculate cache keys and try again.
-            cache_keys = self._get_cache_keys(input_grid, output_grid, wavelength)
+            # Recalculate the cache key with both grids known and try again.
+            cache_keys = self._get_cache_keys(input_grid, output_grid, wavelength)[:1]
 
             for cache_key in cache_keys:
                 if cache_key in self._instance_data_cache:
+                    # Remember that this request leads to this instance.
                     instance_data = self._instance_data_cache[cache_key]
+                    self._instance_data_cache[request_keys[0]] = instance_data
                     break
             else:
                 # Item does not yet exist. Create instanceData element
@@ -631,7 +633,7 @@ class AgnosticOpticalElement(OpticalElement):
                 self.make_instance(instance_data, input_grid, output_grid, wavelength)
 
                 # Add instance data to cache.
-                self._add_to_cache(instance_data, cache_keys)
+                self._add_to_cache(instance_data, cache_keys + request_keys)
 
         return instance_data
 
